@@ -1,3 +1,4 @@
+from common import guarded
 """C17  Variances are never negative and means stay within the data range.  Engine K + RS."""
 import terms as tm
 from terms import T, INT, UINT, REAL, TRUE, FALSE, And, Not, Or, real, ite
@@ -236,14 +237,14 @@ def confirm(ob):
 def run(tier, seed):
     # float-heavy for CBMC (Moments4.add 470 s, Moments6.add 780 s, Moments6.merge 450 s, Kurtosis.merge 190 s): thorough tier
     slow = ("kurtosis_nonneg_merge", "vm4::verif_kani::mn_nonneg_add", "vm6::verif_kani::mn_nonneg_add", "vm6::verif_kani::mn_nonneg_merge")
-    obs = kjobs.job_for("C17", tier, timeout=3000, harness_timeout=2400, exclude=slow if tier == "quick" else ()).run()
+    obs = guarded("C17.engine.kjobs.job_for@L239", lambda: kjobs.job_for("C17", tier, timeout=3000, harness_timeout=2400, exclude=slow if tier == "quick" else ()).run())
     pr = Prover("C17", tier)
     mean_in_range(pr)
     mean_in_range_cov_moments(pr)
     weights(pr)
     multinomial(pr)
     obs += pr.obs
-    obs += extreme_weights_corpus()
+    obs += guarded("C17.engine.extreme_weights_corpus@L246", lambda: extreme_weights_corpus())
     meta = {
         "level": "proof",
         "checker_cmd": "cargo kani (scratch copy + contracts/kani/{moments,covariance,moments_n}.rs); rsx -> RS executor -> z3 QF_NRA",
